@@ -112,7 +112,9 @@ def u_add_error_object(root):
         st.assume(z3.And(ESlen >= 0, elen >= 0, n >= 0, eo.e != NULL))
         return {"name": nm, "error_object": eo, "additional_error_dict_keys": VDict({})}
     # the name-collision loop: on exit the chosen name is not None and unused
-    loops = {0: lambda e, s: z3.And(s.h("_error_dicts", "namemap") == H("_error_dicts", "namemap"), s.h("_error_dicts", "namemap", "len") == H("_error_dicts", "namemap", "len"), s.h("_error_dicts", "namemap", "names") == H("_error_dicts", "namemap", "names"))}
+    m_pre = VNameMap(ES, ESlen, NAMES, "ErrEntry")
+    loops = {0: lambda e, s: z3.And(s.h("_error_dicts", "namemap") == H("_error_dicts", "namemap"), s.h("_error_dicts", "namemap", "len") == H("_error_dicts", "namemap", "len"), s.h("_error_dicts", "namemap", "names") == H("_error_dicts", "namemap", "names"),
+                                    z3.Implies(z3.And(nm.e != NAME_NONE, z3.Not(m_pre.has(nm.e))), s.locals["_name"].e == nm.e))}         # a usable given name is never replaced
 
     def post(vw):
         m0 = vw.f(vw.pre, vw.self, "_error_dicts")
